@@ -73,6 +73,13 @@ Lemma serialize_rows_count vals rows data : serialize vals = Ok (rows, data) -> 
 Proof. intros H. unfold serialize in H. apply ser_go_rows_shape in H.
   induction H as [|x y l l' _ _ IH]; cbn; [reflexivity | rewrite IH; reflexivity]. Qed.
 
+Lemma cpm_core_of_ok name p pm : create_props_metadata name p = Ok pm -> cpm_core name p = Ok pm.
+Proof. unfold create_props_metadata. destruct (vlen_dtypes_uniform p); [auto | discriminate]. Qed.
+Lemma cpm_uniform_of_ok name p pm : create_props_metadata name p = Ok pm -> vlen_dtypes_uniform p = true.
+Proof. unfold create_props_metadata. destruct (vlen_dtypes_uniform p); [auto | discriminate]. Qed.
+Lemma cpm_fixed name a m : create_props_metadata name (mkprop (PFixed a) m) = cpm_core name (mkprop (PFixed a) m).
+Proof. reflexivity. Qed.
+
 (* the property-level round trip *)
 Theorem prop_roundtrip name n p pm v m d :
   wf_prop n p ->
@@ -80,7 +87,7 @@ Theorem prop_roundtrip name n p pm v m d :
   encode_prop p = Ok (v, m, d) ->
   load_prop (mkzprop v m d) None pm = Ok (upcast_prop p).
 Proof.
-  intros [Hv Hm] Hpm Henc. unfold create_props_metadata in Hpm. unfold encode_prop in Henc.
+  intros [Hv Hm] Hpm Henc. apply cpm_core_of_ok in Hpm; unfold cpm_core in Hpm. unfold encode_prop in Henc.
   destruct p as [vals miss]. unfold upcast_prop in *. cbn [p_vals p_missing] in *.
   destruct vals as [a|elems]; cbn [p_vals] in *.
   - (* fixed *)
